@@ -205,19 +205,28 @@ Theorem unknown_selected_errors : forall opt m pre w post,
   (mandatory opt || negb (is_plain_none src)) = true -> plus_form src = false ->
   flagged sg w = true -> mems (key w) (keys m) = false ->
   (forall p, In p pre -> flagged sg p = true -> mems (key p) (keys m) = true) ->
-  (forall p, In p pre -> flagged sg p = false -> key p <> key w) ->
   choice_fetch_x opt m src false = FNotAChoice (unstar (wv w)) (wline w) (map wv m).
 Proof.
-  intros opt m pre w post src sg M A G P F U Hpre Hshadow.
+  intros opt m pre w post src sg M A G P F U Hpre.
   rewrite (fetch_unfold opt m src false M A). unfold sel_loop. rewrite G, P. fold sg. unfold src.
   rewrite normal_app.
   destruct (normal_pre_ok sg false pre (init_flags m [])) as [fl' L].
   { intros p Hp Fp. rewrite fhas_init. apply Hpre; assumption. }
   rewrite L. rewrite normal_step. rewrite F.
-  rewrite (normal_keys _ _ _ _ _ L (key w)). rewrite fhas_init, U.
-  rewrite existsb_false; [reflexivity|].
-  intros p Hp. destruct (flagged sg p) eqn:Fp; [reflexivity|]. cbn.
-  apply eqs_false_iff. apply Hshadow; assumption.
+  rewrite (normal_keys _ _ _ _ _ L (key w)). rewrite fhas_init, U. reflexivity.
+Qed.
+
+(* first element satisfying a test *)
+Lemma first_such : forall {A} (f:A -> bool) l,
+  existsb f l = true ->
+  exists pre x post, l = pre ++ x :: post /\ f x = true /\ (forall y, In y pre -> f y = false).
+Proof.
+  intros A f. induction l as [|a l IH]; intro H; [discriminate|].
+  cbn in H. destruct (f a) eqn:Fa.
+  - exists [], a, l. split; [reflexivity|]. split; [exact Fa|]. intros y [].
+  - cbn in H. destruct (IH H) as [pre [x [post [E [Fx Hpre]]]]].
+    exists (a :: pre), x, post. subst l. split; [reflexivity|]. split; [exact Fx|].
+    intros y [Hy|Hy]; [subst y; exact Fa | apply Hpre; exact Hy].
 Qed.
 
 Lemma lower_plus : forall c, Ascii.eqb (lower c) plus = Ascii.eqb c plus.
@@ -247,50 +256,103 @@ Qed.
 Theorem unknown_selected_errors_plus : forall opt m src ign pre v l post,
   master_ok m = true -> plus_form src = true ->
   plus_pieces src = pre ++ (v, l) :: post ->
-  (forall p, In p pre -> mems (fst p) (keys m) = true) -> mems v (keys m) = false ->
+  (forall p, In p pre -> mems (lowers (fst p)) (keys m) = true) -> mems (lowers v) (keys m) = false ->
   choice_fetch_x opt m src ign = FNotAChoice v l (map wv m).
 Proof.
   intros opt m src ign pre v l post M P E Hpre Hv.
   destruct (plus_form_guard src (mandatory opt) P) as [A G].
   rewrite (fetch_unfold opt m src ign M A). unfold sel_loop. rewrite G, P, E.
-  rewrite (pieces_first_bad pre v l post _ (lowkeys_init m)); [reflexivity | |].
+  rewrite (pieces_first_bad pre v l post); [reflexivity | |].
   - intros p Hp. rewrite fhas_init. apply Hpre. exact Hp.
   - rewrite fhas_init. exact Hv.
 Qed.
 
+(* a selected name that is not an alternative is never dropped: some error is raised *)
+Theorem selected_unknown_never_dropped : forall opt m src,
+  master_ok m = true -> is_plain_auto src = false ->
+  (mandatory opt || negb (is_plain_none src)) = true ->
+  (plus_form src = false ->
+     (exists w, In w src /\ flagged (length src =? 1)%nat w = true /\ mems (key w) (keys m) = false) ->
+     exists w, In w src /\ flagged (length src =? 1)%nat w = true /\ mems (key w) (keys m) = false
+       /\ choice_fetch_x opt m src false = FNotAChoice (unstar (wv w)) (wline w) (map wv m)) /\
+  (plus_form src = true -> forall ign,
+     (exists n, In n (plus_names src) /\ mems (lowers n) (keys m) = false) ->
+     exists v l, In (v, l) (plus_pieces src) /\ mems (lowers v) (keys m) = false
+       /\ choice_fetch_x opt m src ign = FNotAChoice v l (map wv m)).
+Proof.
+  intros opt m src M A G. split.
+  - intros P [w [Hw [Fw Uw]]].
+    set (bad := fun x => flagged (length src =? 1)%nat x && negb (mems (key x) (keys m))).
+    assert (Ex : existsb bad src = true).
+    { apply existsb_exists. exists w. split; [exact Hw|]. unfold bad. rewrite Fw, Uw. reflexivity. }
+    destruct (first_such bad src Ex) as [pre [x [post [E [Bx Hpre]]]]].
+    unfold bad in Bx. apply andb_true_iff in Bx. destruct Bx as [Fx Ux]. apply negb_true_iff in Ux.
+    exists x. split; [rewrite E; apply in_or_app; right; left; reflexivity|].
+    split; [exact Fx|]. split; [exact Ux|].
+    subst src. apply unknown_selected_errors; try assumption.
+    intros p Hp Fp. pose proof (Hpre p Hp) as B. unfold bad in B. rewrite Fp in B. cbn in B.
+    apply negb_false_iff in B. exact B.
+  - intros P ign [n [Hn Un]].
+    set (bad := fun p : str * nat => negb (mems (lowers (fst p)) (keys m))).
+    assert (Ex : existsb bad (plus_pieces src) = true).
+    { unfold plus_names in Hn. apply in_map_iff in Hn. destruct Hn as [[v l] [E Hp]]. cbn in E. subst v.
+      apply existsb_exists. exists (n, l). split; [exact Hp|]. unfold bad. cbn [fst]. rewrite Un. reflexivity. }
+    destruct (first_such bad _ Ex) as [pre [[v l] [post [E [Bx Hpre]]]]].
+    unfold bad in Bx. cbn [fst] in Bx. apply negb_true_iff in Bx.
+    exists v, l. split; [rewrite E; apply in_or_app; right; left; reflexivity|]. split; [exact Bx|].
+    apply (unknown_selected_errors_plus opt m src ign pre v l post M P E); [|exact Bx].
+    intros p Hp. pose proof (Hpre p Hp) as B. unfold bad in B. apply negb_false_iff in B. exact B.
+Qed.
+
+(* the "+" form is case-insensitive like the other spellings *)
+Theorem plus_case_insensitive : forall opt m src ign,
+  master_ok m = true -> plus_form src = true ->
+  (forall n, In n (plus_names src) -> mems (lowers n) (keys m) = true) ->
+  choice_fetch opt m src ign =
+    Ok (map (fun w => restar (mems (key w) (map lowers (plus_names src))) w) m).
+Proof.
+  intros opt m src ign M P H.
+  destruct (plus_form_guard src (mandatory opt) P) as [A G].
+  unfold choice_fetch. rewrite (fetch_unfold opt m src ign M A). unfold sel_loop. rewrite G, P.
+  assert (Ok' : exists fl, pieces_loop (plus_pieces src) (init_flags m []) = LOk fl).
+  { destruct (pieces_loop (plus_pieces src) (init_flags m [])) as [fl|v l] eqn:L; [exists fl; reflexivity|].
+    destruct (pieces_bad_sound _ _ _ _ L) as [pre [post [E [Hv _]]]].
+    rewrite fhas_init in Hv. rewrite H in Hv; [discriminate|].
+    unfold plus_names. rewrite E. rewrite map_app. apply in_or_app. right. left. reflexivity. }
+  destruct Ok' as [fl L]. rewrite L.
+  rewrite (rebuild_spec (fun k => mems k (map lowers (plus_names src))) m fl); [reflexivity|].
+  intros w Hw. rewrite (pieces_get _ _ _ (key w) L). fold (plus_names src).
+  destruct (mems (key w) (map lowers (plus_names src))); [reflexivity | apply init_get_master; exact Hw].
+Qed.
+
 (* every error is "not a possible choice", names a selected name of the source that is not
-   (literally, in the + form: see F9) an alternative, and lists the master's words *)
+   (up to case) an alternative, and lists the master's words *)
 Theorem error_sound : forall opt m src ign v l alts,
   choice_fetch_x opt m src ign = FNotAChoice v l alts ->
   alts = map wv m /\
   (plus_form src = false ->
      ign = false /\ exists pre w post, src = pre ++ w :: post /\ v = unstar (wv w) /\ l = wline w
        /\ flagged (length src =? 1)%nat w = true /\ mems (key w) (keys m) = false) /\
-  (plus_form src = true -> In (v, l) (plus_pieces src) /\ mems v (keys m) = false).
+  (plus_form src = true -> In (v, l) (plus_pieces src) /\ mems (lowers v) (keys m) = false).
 Proof.
   intros opt m src ign v l alts H.
   destruct (master_ok m) eqn:M; [|rewrite (fetch_crash _ _ _ _ M) in H; discriminate].
   destruct (is_plain_auto src) eqn:A; [rewrite (fetch_auto _ _ _ _ M A) in H; discriminate|].
   rewrite (fetch_unfold opt m src ign M A) in H.
   assert (R : forall fl, rebuild m fl <> FNotAChoice v l alts).
-  { intro fl. clear H. induction m as [|w m' IH]; cbn; [discriminate|].
+  { intro fl. clear. induction m as [|w m IH]; cbn; [discriminate|].
     destruct (fget (lowers (unstar (wv w))) fl); [|discriminate].
-    assert (IH' : rebuild m' fl <> FNotAChoice v l alts).
-    { destruct (master_ok m') eqn:M'; [apply IH; reflexivity|].
-      clear IH. revert M'. clear. intros _. induction m' as [|w m IH]; cbn; [discriminate|].
-      destruct (fget (lowers (unstar (wv w))) fl); [|discriminate].
-      destruct (rebuild m fl); [discriminate | exact IH | discriminate]. }
-    destruct (rebuild m' fl); [discriminate | exact IH' | discriminate]. }
+    destruct (rebuild m fl); [discriminate | exact IH | discriminate]. }
   unfold sel_loop in H.
   destruct (mandatory opt || negb (is_plain_none src)); [|exfalso; exact (R _ H)].
   destruct (plus_form src) eqn:P.
   - destruct (pieces_loop (plus_pieces src) (init_flags m [])) as [fl|v' l'] eqn:L; [exfalso; exact (R _ H)|].
     inversion H; subst. split; [reflexivity|]. split; [discriminate|]. intros _.
-    destruct (pieces_bad_sound _ _ _ _ (lowkeys_init m) L) as [pre [post [E [Hv _]]]].
+    destruct (pieces_bad_sound _ _ _ _ L) as [pre [post [E [Hv _]]]].
     rewrite E. split; [apply in_or_app; right; left; reflexivity|]. rewrite <- fhas_init. exact Hv.
   - destruct (normal_loop (length src =? 1)%nat ign src (init_flags m [])) as [fl|v' l'] eqn:L; [exfalso; exact (R _ H)|].
     inversion H; subst. split; [reflexivity|]. split; [|discriminate]. intros _.
-    destruct (normal_bad_sound _ _ _ _ _ _ L) as [Ei [pre [w [post [E [E1 [E2 [E3 E4]]]]]]]].
+    destruct (normal_bad_sound _ _ _ _ _ _ L) as [Ei [pre [w [post [E [E1 [E2 [E3 [E4 _]]]]]]]]].
     split; [exact Ei|]. exists pre, w, post. rewrite fhas_init in E4. repeat split; assumption.
 Qed.
 
@@ -310,11 +372,10 @@ Proof. intros A l H. apply Nat.eqb_neq. lia. Qed.
 Theorem unknown_unselected_ignored : forall opt m pre u post ign,
   (2 <= length (pre ++ post))%nat ->
   starts_star (wv u) = false -> mems (key u) (keys m) = false ->
-  (forall p, In p post -> starts_star (wv p) = true -> key p <> key u) ->
   plus_form (pre ++ post) = false -> plus_form (pre ++ u :: post) = false ->
   choice_fetch_x opt m (pre ++ u :: post) ign = choice_fetch_x opt m (pre ++ post) ign.
 Proof.
-  intros opt m pre u post ign Len Su Uu Hpost P1 P2.
+  intros opt m pre u post ign Len Su Uu P1 P2.
   assert (Len' : (2 <= length (pre ++ u :: post))%nat).
   { rewrite app_length in *. cbn. lia. }
   destruct (master_ok m) eqn:M; [|rewrite !(fetch_crash _ _ _ _ M); reflexivity].
@@ -323,21 +384,9 @@ Proof.
   unfold sel_loop. unfold is_plain_none. rewrite (len2_not_plain _ _ Len'), (len2_not_plain _ _ Len).
   rewrite P1, P2. rewrite (len2_not_single _ Len'), (len2_not_single _ Len).
   rewrite orb_true_r. rewrite !normal_app.
-  destruct (normal_loop false ign pre (init_flags m [])) as [fl1|v l]; [|reflexivity].
-  rewrite normal_step. unfold flagged at 1 2. rewrite Su. cbn [orb andb].
-  pose proof (normal_agree false ign (key u) post (fset (key u) false fl1) fl1) as Ag.
-  assert (A1 : forall k, k <> key u -> fget k (fset (key u) false fl1) = fget k fl1).
-  { intros k Hk. rewrite fget_fset. replace (eqs (key u) k) with false; [reflexivity|].
-    symmetry. apply eqs_false_iff. congruence. }
-  assert (A2 : forall p, In p post -> flagged false p = true -> key p <> key u).
-  { intros p Hp Fp. unfold flagged in Fp. rewrite orb_false_r in Fp. apply Hpost; assumption. }
-  specialize (Ag A1 A2).
-  destruct (normal_loop false ign post (fset (key u) false fl1)) as [a|v l];
-    destruct (normal_loop false ign post fl1) as [b|v' l']; try contradiction.
-  - apply rebuild_ext. intros w Hw. apply Ag. intro E.
-    assert (In (key u) (keys m)) by (rewrite <- E; unfold keys; apply in_map; exact Hw).
-    apply mems_In in H. congruence.
-  - destruct Ag as [E1 E2]. subst. reflexivity.
+  destruct (normal_loop false ign pre (init_flags m [])) as [fl1|v l] eqn:L; [|reflexivity].
+  rewrite normal_step. rewrite (normal_keys _ _ _ _ _ L (key u)). rewrite fhas_init, Uu.
+  unfold flagged. rewrite Su. reflexivity.
 Qed.
 
 Lemma qs_not_plus_form : forall src, existsb qs src = true -> plus_form src = false.
@@ -601,33 +650,6 @@ Proof.
 Qed.
 
 (* ---------- witnesses *)
-(* F9: "+" form, names written with their upper-case letters *)
-Theorem refuted_plus_case :
-  exists m src src',
-    plus_form src = true
-    /\ (forall n, In n (plus_names src) -> mems (lowers n) (keys m) = true)
-    /\ choice_fetch ANone m src false = UErr (s_ "NotAChoice") (s_ "A") 0
-    /\ src' = map (fun w => mkword (lowers (wv w)) (wq w) (wline w)) src
-    /\ choice_fetch ANone m src' false = Ok [uw (s_ "*A"); uw (s_ "*b"); uw (s_ "C")].
-Proof.
-  exists [uw (s_ "A"); uw (s_ "b"); uw (s_ "C")], [uw (s_ "A+b")], [uw (s_ "a+b")].
-  split; [vm_compute; reflexivity|]. split.
-  - intros n H. vm_compute in H. destruct H as [H|[H|[]]]; subst n; vm_compute; reflexivity.
-  - vm_compute. repeat split; reflexivity.
-Qed.
-
-(* finding C11-shadowed-star: a starred unknown name goes unnoticed when the same name came first without a star *)
-Theorem refuted_shadowed_star :
-  exists m u s,
-    starts_star (wv s) = true /\ mems (key s) (keys m) = false
-    /\ choice_fetch ANone m [u; s] false = Ok m
-    /\ choice_fetch ANone m [s] false = UErr (s_ "NotAChoice") (s_ "x") 0
-    /\ choice_fetch ANone m [s; u] false = UErr (s_ "NotAChoice") (s_ "x") 0.
-Proof.
-  exists [uw (s_ "a"); uw (s_ "b")], (uw (s_ "x")), (uw (s_ "*x")).
-  vm_compute. repeat split; reflexivity.
-Qed.
-
 (* outside wf_choice_master: an alternative whose name itself starts with a star *)
 Theorem refuted_starred_name :
   exists m src r, wf_choice_master m = false
